@@ -340,4 +340,47 @@ theorem fibre_model_passive_normalised (E m : ℕ → Cx ℝ) (w : ℕ → ℝ) 
 example : power (fun _ => (⟨1, 0⟩ : Cx ℝ)) (fun _ => (1 : ℝ)) 1 = 1 := by
   simp [power, Fft.sumRange, Cx.normSq]
 
+/-- **Scalar transmissions on polarised light** (`Passive.maskJ`, `maskV`, driver op `maskpol`, compared per pixel with
+`Apodizer` / every phase-only family acting on Jones-matrix and Jones-vector wavefronts): the whole Stokes vector of the pixel
+scales by `|t|²` — whatever the input Stokes vector. -/
+theorem mask_model_polarised_stokes (t : Cx ℝ) (e : J2 ℝ) (s : S4 ℝ) (v : V2 ℝ) :
+    (jonesStokes (maskJ t e) s).i = t.normSq * (jonesStokes e s).i ∧ (jonesStokes (maskJ t e) s).q = t.normSq * (jonesStokes e s).q ∧
+    (jonesStokes (maskJ t e) s).u = t.normSq * (jonesStokes e s).u ∧ (jonesStokes (maskJ t e) s).v = t.normSq * (jonesStokes e s).v ∧
+    (vecStokes (maskV t v)).i = t.normSq * (vecStokes v).i ∧ (vecStokes (maskV t v)).q = t.normSq * (vecStokes v).q ∧
+    (vecStokes (maskV t v)).u = t.normSq * (vecStokes v).u ∧ (vecStokes (maskV t v)).v = t.normSq * (vecStokes v).v := by
+  obtain ⟨⟨xr, xi⟩, ⟨yr, yi⟩, ⟨zr, zi⟩, ⟨wr, wi⟩⟩ := e
+  obtain ⟨a, b, c, d⟩ := s
+  obtain ⟨⟨pr, pi⟩, ⟨qr, qi⟩⟩ := v
+  obtain ⟨tr, ti⟩ := t
+  refine ⟨?_, ?_, ?_, ?_, ?_, ?_, ?_, ?_⟩ <;> (simp only [maskJ, maskV, J2.scale]; jones_model_expand; ring)
+
+/-- Phase-only elements (`|t| = 1`) leave the intensity — and the whole Stokes vector — of every partially / fully polarised pixel
+unchanged; masks with `|t| ≤ 1` never increase the intensity (for a physical input Stokes vector, where the intensity is ≥ 0). -/
+theorem mask_model_polarised_passive (t : Cx ℝ) (e : J2 ℝ) (s : S4 ℝ) (v : V2 ℝ) (ha : 0 ≤ s.i)
+    (hphys : s.q ^ 2 + s.u ^ 2 + s.v ^ 2 ≤ s.i ^ 2) :
+    (t.normSq = 1 → jonesStokes (maskJ t e) s = jonesStokes e s ∧ vecStokes (maskV t v) = vecStokes v) ∧
+    (t.normSq ≤ 1 → (jonesStokes (maskJ t e) s).i ≤ (jonesStokes e s).i ∧ (vecStokes (maskV t v)).i ≤ (vecStokes v).i) := by
+  obtain ⟨h1, h2, h3, h4, h5, h6, h7, h8⟩ := mask_model_polarised_stokes t e s v
+  constructor
+  · intro ht
+    rw [ht, one_mul] at h1 h2 h3 h4 h5 h6 h7 h8
+    constructor
+    · cases hj : jonesStokes (maskJ t e) s; cases hk : jonesStokes e s
+      rw [hj, hk] at h1 h2 h3 h4; simp only at h1 h2 h3 h4; rw [h1, h2, h3, h4]
+    · cases hj : vecStokes (maskV t v); cases hk : vecStokes v
+      rw [hj, hk] at h5 h6 h7 h8; simp only at h5 h6 h7 h8; rw [h5, h6, h7, h8]
+  · intro ht
+    have i1 := jonesStokes_i_nonneg e s ha hphys
+    have i2 : 0 ≤ (vecStokes v).i := by
+      obtain ⟨⟨pr, pi⟩, ⟨qr, qi⟩⟩ := v
+      jones_model_expand
+      nlinarith [mul_self_nonneg pr, mul_self_nonneg pi, mul_self_nonneg qr, mul_self_nonneg qi]
+    rw [h1, h5]
+    constructor <;> nlinarith
+
+/-- The hypotheses are satisfiable: unpolarised input, a half-transparent pixel. -/
+example : (0 : ℝ) ≤ (⟨1, 0, 0, 0⟩ : S4 ℝ).i ∧ (⟨1, 0, 0, 0⟩ : S4 ℝ).q ^ 2 + (⟨1, 0, 0, 0⟩ : S4 ℝ).u ^ 2 + (⟨1, 0, 0, 0⟩ : S4 ℝ).v ^ 2 ≤ (⟨1, 0, 0, 0⟩ : S4 ℝ).i ^ 2
+    ∧ (⟨1 / 2, 0⟩ : Cx ℝ).normSq ≤ 1 := by
+  norm_num [Cx.normSq]
+
 end HcipyVerif.C07
